@@ -1,0 +1,24 @@
+//go:build verif
+
+package parser
+
+// Read-only accessors used by the external verification harness (/verif):
+// they expose the unexported token flags so that complete tokens can be
+// compared with a reference tokenizer. Compiled only with -tags verif.
+
+// VerifTokenFlags returns the private flags of a token:
+// hash "is identifier", string "eof error", url "eof error".
+func VerifTokenFlags(t Token) (isID, errInString, errInURL bool) {
+	switch t := t.(type) {
+	case Hash:
+		return t.flag&isIdentifier != 0, false, false
+	case String:
+		return false, t.flag == isErrorInString, false
+	case URL:
+		return false, false, t.flag == isErrorInURL
+	}
+	return false, false, false
+}
+
+// VerifErrorKind returns the private kind byte of a ParseError.
+func VerifErrorKind(t ParseError) byte { return t.kind }
